@@ -63,6 +63,29 @@ def run(R):
                         s2 = st[:i] + bytes([c]) + st[i + 1:]
                         g.append(CS.crypt_op("rn", 0, base, s2)); gi.append((m, n, "salt", i))
                 groups.append(g); info.append(gi)
+    # salt lengths: every method whose salt has a variable length, at length classes that straddle the block boundaries of the hash underneath
+    # (PBKDF2's fast/generic paths at salt tails 32/51/52/63/64 for the yescrypt family, 55/56/64 for the MD-style ones); every salt character
+    # (for the yescrypt family: every salt byte, re-encoded) is changed in turn and the hash part must change (seeded/C03c)
+    def salted(m, body):
+        return {"md5crypt": b"$1$" + body, "sha256crypt": b"$5$rounds=1000$" + body, "sha512crypt": b"$6$rounds=1000$" + body,
+                "sha1crypt": b"$sha1$24$" + body + b"$", "sunmd5": b"$md5,rounds=5$" + body + b"$", "scrypt": b"$7$66..../...." + body,
+                "yescrypt": b"$y$j75$" + S.enc64(body), "gost_yescrypt": b"$gy$j75$" + S.enc64(body)}[m]
+    SL = {"md5crypt": [1, 4, 8], "sha256crypt": [1, 8, 15, 16], "sha512crypt": [1, 8, 15, 16],
+          "sha1crypt": [1, 8, 40, 55, 56, 63, 64], "sunmd5": [1, 8, 30, 55, 56, 64],
+          "scrypt": [1, 8, 31, 32, 40, 51, 52, 63, 64, 65, 100] if quick else list(range(1, 130)),
+          "yescrypt": [1, 16, 31, 32, 40, 51, 52, 63, 64] if quick else list(range(1, 65)),
+          "gost_yescrypt": [1, 16, 32, 40, 52, 64] if quick else list(range(1, 65))}
+    for m, lens_ in SL.items():
+        for L in lens_:
+            raw = m in ("yescrypt", "gost_yescrypt")
+            body = bytes(R.rng.randrange(256) for _ in range(L)) if raw else S.rs(R.rng, S.A64, L)
+            base = bytes(R.rng.randrange(0x21, 0x7f) for _ in range(12))
+            g = [CS.crypt_op("rn", 0, base, salted(m, body))]; gi = [(m, 12, "base", None)]
+            for i in range(L):
+                if raw: b2 = body[:i] + bytes([body[i] ^ (1 << R.rng.randrange(8))]) + body[i + 1:]
+                else: b2 = body[:i] + bytes([S.A64[(S.A64.index(body[i]) + 1 + R.rng.randrange(62)) % 64]]) + body[i + 1:]
+                g.append(CS.crypt_op("rn", 0, base, salted(m, b2))); gi.append((m, 12, "salt", "%d of a %d-%s salt" % (i, L, "byte" if raw else "character")))
+            groups.append(g); info.append(gi)
     ops, il, ml = R.run_pair_sharded(groups)
     infos = [x for gi in info for x in gi]
     diffs = compare(R, ops, il, ml, CS.proj_crypt, "perturbation stream")
@@ -92,7 +115,7 @@ def run(R):
                 bad.append((op, "%s: a passphrase %s by one byte (at a significant position) gives the same hash" % (m, "shortened" if kind == "truncate" else "extended"), line))
         elif kind == "salt":
             if out[-dig:] == base_out[-dig:]:
-                bad.append((op, "%s: changing salt character %d leaves the hash part unchanged" % (m, arg), line))
+                bad.append((op, "%s: changing salt character %s leaves the hash part unchanged" % (m, arg), line))
     R.cov["evaluations"] = len(ops)
     R.cov["distinct_nontrivial"] = len(set(ops))
     R.cov["rule"] = ("for every method and phrase lengths %s: single-bit flips (thorough: every bit of every byte for lengths up to 32 and the lengths 64, 72, 73, 128, 129, 511, boundary and random positions for the other lengths; quick: boundary positions 7/8, 71/72, 127/128 and samples), "
